@@ -37,6 +37,13 @@ import (
 // through handler.ServeHTTP with httptest recorders. A reference model (issued tokens with
 // expiry / logged-out flag, accepted login attempts per address) runs alongside; states are
 // merged by the model's canonical key.
+//
+// The statement fixes a session's lifetime at login ("issued by a successful login that has not
+// expired"): the model's expiry is absolute, login instant + ttl, whatever happens in between.
+// Presenting a token (protected request, /ui/api/auth/session poll) does not change the model
+// state, but it may change the implementation's (e.g. a sliding/idle expiry); to see that, the
+// search key also carries, for every live session, how long ago it was last presented, so a
+// history is extended THROUGH a use (use, then time passes, then requests).
 
 const (
 	c38User = "admin"
@@ -46,14 +53,14 @@ const (
 // ---------- events ----------
 
 type c38Ev struct {
-	K  string `json:"k"`            // login | logout | req | adv | burst
+	K  string `json:"k"`            // login | logout | req | poll | useall | adv | burst
 	OK bool   `json:"ok,omitempty"` // login: correct credentials
 	IP string `json:"ip,omitempty"` // login/burst: client address A | B
 	N  int    `json:"n,omitempty"`  // burst: number of logins (bad credentials) at one instant
-	C  string `json:"c,omitempty"`  // logout/req cookie: none | empty | garbage | trunc0 | tok
+	C  string `json:"c,omitempty"`  // logout/req/poll/useall cookie: none | empty | garbage | trunc0 | tok
 	T  int    `json:"t,omitempty"`  // token index (issue order) when C == tok
 	R  string `json:"r,omitempty"`  // req: route pattern
-	D  string `json:"d,omitempty"`  // adv: 1s | w/2 | w | ttl-1s | ttl+1s
+	D  string `json:"d,omitempty"`  // adv: 1s | w/2 | w | ttl/2 | ttl-1s | ttl+1s
 }
 
 func (e c38Ev) String() string {
@@ -64,6 +71,10 @@ func (e c38Ev) String() string {
 		return "logout(" + e.cookieStr() + ")"
 	case "req":
 		return "req(" + e.R + "," + e.cookieStr() + ")"
+	case "poll":
+		return "poll(" + e.cookieStr() + ")"
+	case "useall":
+		return "useall(" + e.cookieStr() + ")"
 	case "adv":
 		return "adv(" + e.D + ")"
 	case "burst":
@@ -225,6 +236,8 @@ func (c c38Cfg) delta(d string) time.Duration {
 		return c.window / 2
 	case "w":
 		return c.window
+	case "ttl/2":
+		return c.ttl / 2
 	case "ttl-1s":
 		return c.ttl - time.Second
 	case "ttl+1s":
@@ -233,7 +246,7 @@ func (c c38Cfg) delta(d string) time.Duration {
 	panic("bad delta " + d)
 }
 
-var c38Deltas = []string{"1s", "w/2", "w", "ttl-1s", "ttl+1s"}
+var c38Deltas = []string{"1s", "w/2", "w", "ttl/2", "ttl-1s", "ttl+1s"}
 
 // ---------- real system + model ----------
 
@@ -251,6 +264,8 @@ type c38Tok struct {
 	expiry time.Time
 	good   bool // issued by a login with correct credentials
 	out    bool // logged out
+	used   bool // presented (request / session poll) at least once while live
+	usedAt time.Time
 }
 
 type c38Sys struct {
@@ -477,41 +492,116 @@ func (s *c38Sys) apply(e c38Ev) {
 		}
 		s.obs = fmt.Sprintf("logout cookie=%s -> %d", st, rr.Code)
 	case "req":
-		var rt *c38Route
-		for i := range s.cfg.routes {
-			if s.cfg.routes[i].Pattern == e.R {
-				rt = &s.cfg.routes[i]
-			}
-		}
+		rt := s.route(e.R)
 		ck, st, ok := s.cookie(e.C, e.T, now)
 		if rt == nil || !ok {
 			s.obs = "disabled"
 			return
 		}
-		rr, p := s.serve(rt.Method, rt.Path, rt.Body, ck, s.addr("A"), rt.Stream)
-		code := rr.Code
-		if p != nil {
-			code = -1
-		}
+		code := s.request(rt, ck, st, e, now)
 		s.obs = fmt.Sprintf("req %s cookie=%s -> %d", rt.Pattern, st, code)
-		answered := p != nil || code/100 == 2
-		switch st {
-		case "live":
-			if !answered && rt.Known {
-				s.fail("live-session-rejected:"+rt.Pattern, "%s %s with a live session token (issued by a successful login, not expired, not logged out) answered %d %q", rt.Method, rt.Path, code, strings.TrimSpace(rr.Body.String()))
-			}
-		case "edge":
-		default:
-			if answered {
-				key := map[string]string{"none": "no-cookie", "empty": "empty-cookie", "garbage": "unknown-token", "expired": "expired-token", "out": "logged-out-token", "bogus": "token-from-failed-login"}[st]
-				what := fmt.Sprintf("status %d", code)
-				if p != nil {
-					what = fmt.Sprintf("handler ran and panicked: %v", p)
-				}
-				s.fail(key+"-answered:"+rt.Pattern, "%s %s carrying %s was answered (%s) instead of being rejected", rt.Method, rt.Path, key, what)
-			}
+	case "poll":
+		ck, st, ok := s.cookie(e.C, e.T, now)
+		if !ok {
+			s.obs = "disabled"
+			return
+		}
+		s.obs = fmt.Sprintf("poll cookie=%s -> %s", st, s.poll(ck, e, now))
+	case "useall":
+		// the token is presented, at one instant, on every protected route and on the session
+		// poll: the strongest single "use" of a session
+		ck, st, ok := s.cookie(e.C, e.T, now)
+		if !ok || (st != "live" && st != "edge") {
+			s.obs = "disabled"
+			return
+		}
+		codes := map[int]int{}
+		var viol []c38Viol
+		for i := range s.cfg.routes {
+			codes[s.request(&s.cfg.routes[i], ck, st, e, now)]++
+			viol = append(viol, s.viol...)
+			s.viol = nil
+		}
+		pr := s.poll(ck, e, now)
+		s.viol = viol
+		s.obs = fmt.Sprintf("useall cookie=%s -> routes %v poll %s", st, codes, pr)
+	}
+}
+
+func (s *c38Sys) route(pattern string) *c38Route {
+	for i := range s.cfg.routes {
+		if s.cfg.routes[i].Pattern == pattern {
+			return &s.cfg.routes[i]
 		}
 	}
+	return nil
+}
+
+// markUse records that a live session's token was presented now (model bookkeeping for the
+// search key and for classifying a violation; it does not change the session's expiry).
+func (s *c38Sys) markUse(e c38Ev, st string, now time.Time) {
+	if e.C != "tok" || (st != "live" && st != "edge") {
+		return
+	}
+	v := s.toks[e.T].val
+	for j := range s.toks {
+		if s.toks[j].val == v && s.toks[j].good && !s.toks[j].out && !now.After(s.toks[j].expiry) {
+			s.toks[j].used, s.toks[j].usedAt = true, now
+		}
+	}
+}
+
+// poll asks /ui/api/auth/session with the cookie. The endpoint is not a protected one, so the
+// statement puts no obligation on its answer: it is only observed (and counts as a use).
+func (s *c38Sys) poll(ck *string, e c38Ev, now time.Time) string {
+	rr, p := s.serve("GET", "/ui/api/auth/session", "", ck, s.addr("A"), false)
+	s.markUse(e, s.statusOf(e, now), now)
+	if p != nil {
+		s.fail("session-poll-panic", "session poll handler panicked: %v", p)
+		return "panic"
+	}
+	return fmt.Sprintf("%d auth=%v", rr.Code, strings.Contains(rr.Body.String(), `"authenticated":true`))
+}
+
+func (s *c38Sys) statusOf(e c38Ev, now time.Time) string {
+	_, st, _ := s.cookie(e.C, e.T, now)
+	return st
+}
+
+// request sends one request for a protected route carrying the cookie and checks the oracle.
+func (s *c38Sys) request(rt *c38Route, ck *string, st string, e c38Ev, now time.Time) int {
+	rr, p := s.serve(rt.Method, rt.Path, rt.Body, ck, s.addr("A"), rt.Stream)
+	code := rr.Code
+	if p != nil {
+		code = -1
+	}
+	answered := p != nil || code/100 == 2
+	switch st {
+	case "live":
+		if !answered && rt.Known {
+			s.fail("live-session-rejected:"+rt.Pattern, "%s %s with a live session token (issued by a successful login, not expired, not logged out) answered %d %q", rt.Method, rt.Path, code, strings.TrimSpace(rr.Body.String()))
+		}
+	case "edge":
+	default:
+		if answered {
+			key := map[string]string{"none": "no-cookie", "empty": "empty-cookie", "garbage": "unknown-token", "expired": "expired-token", "out": "logged-out-token", "bogus": "token-from-failed-login"}[st]
+			what := fmt.Sprintf("status %d", code)
+			if p != nil {
+				what = fmt.Sprintf("handler ran and panicked: %v", p)
+			}
+			carrying := key
+			if st == "expired" && e.C == "tok" && s.toks[e.T].used {
+				// the session was presented while it was live: an expiry that slides with use
+				// (idle timeout) is a different mechanism from an expiry that is never checked
+				t := s.toks[e.T]
+				key = "expired-token-kept-alive-by-use"
+				carrying = fmt.Sprintf("a token whose session expired %v ago (issued %v ago, lifetime %v fixed at login) and that was last presented %v ago while still live", now.Sub(t.expiry), now.Sub(t.expiry)+s.cfg.ttl, s.cfg.ttl, now.Sub(t.usedAt))
+			}
+			s.fail(key+"-answered:"+rt.Pattern, "%s %s carrying %s was answered (%s) instead of being rejected", rt.Method, rt.Path, carrying, what)
+		}
+	}
+	s.markUse(e, st, now)
+	return code
 }
 
 // sweep closes every replay: every protected route is requested with no cookie, an unknown
@@ -523,15 +613,20 @@ func (s *c38Sys) sweep() {
 	for i := range s.toks {
 		cookies = append(cookies, c38Ev{C: "tok", T: i})
 	}
+	// all violations of the sweep are collected (not only the first), so a defect of the common
+	// session check shows on every route and is reported as one mechanism
+	var viol []c38Viol
 	for _, r := range s.cfg.routes {
 		for _, c := range cookies {
-			s.apply(c38Ev{K: "req", R: r.Pattern, C: c.C, T: c.T})
-			if len(s.viol) > 0 {
-				s.viol[0].Detail = "(closing sweep after the history: " + c38Ev{K: "req", R: r.Pattern, C: c.C, T: c.T}.String() + ") " + s.viol[0].Detail
-				return
+			e := c38Ev{K: "req", R: r.Pattern, C: c.C, T: c.T}
+			s.apply(e)
+			for _, v := range s.viol {
+				v.Detail = "(closing sweep after the history: " + e.String() + ") " + v.Detail
+				viol = append(viol, v)
 			}
 		}
 	}
+	s.viol = viol
 }
 
 // canon: canonical key of the model state (relative times only).
@@ -541,7 +636,13 @@ func (s *c38Sys) canon() string {
 	for i := range s.toks {
 		st := s.tokStatus(i, now)
 		if st == "live" || st == "edge" {
+			// remaining absolute lifetime (exact) and, if the session was ever presented, the
+			// exact time since its last presentation. Both are dropped once the session is
+			// expired or logged out: the statement then rejects the token for ever.
 			st = "live+" + s.toks[i].expiry.Sub(now).String()
+			if s.toks[i].used {
+				st += "/used-" + now.Sub(s.toks[i].usedAt).String()
+			}
 		}
 		ts = append(ts, st)
 	}
@@ -587,11 +688,18 @@ func (s *c38Sys) summary() string {
 	return fmt.Sprintf("live=%d expired=%d out=%d hitsA=%d hitsB=%d", cnt["live"]+cnt["edge"], cnt["expired"], cnt["out"], hits("A"), hits("B"))
 }
 
-// enabled lists the events offered after a history that issued ntoks tokens.
-func c38Enabled(cfg c38Cfg, ntoks int, routes []c38Route) []c38Ev {
+// enabled lists the events offered after a history that issued ntoks tokens, of which the
+// sessions live are live (not expired, not logged out) by the model.
+func c38Enabled(cfg c38Cfg, ntoks int, live []int, routes []c38Route) []c38Ev {
 	var ev []c38Ev
 	for _, ip := range []string{"A", "B"} {
 		ev = append(ev, c38Ev{K: "login", OK: true, IP: ip}, c38Ev{K: "login", OK: false, IP: ip})
+	}
+	// useall comes before the single-route requests and polls of the same token: they reach the
+	// same search key (session presented just now) and the first history reaching a key is the
+	// one that is extended, so histories continue after the strongest use.
+	for _, i := range live {
+		ev = append(ev, c38Ev{K: "useall", C: "tok", T: i})
 	}
 	cookies := []c38Ev{{C: "none"}, {C: "empty"}, {C: "garbage"}}
 	for i := 0; i < ntoks; i++ {
@@ -604,6 +712,9 @@ func c38Enabled(cfg c38Cfg, ntoks int, routes []c38Route) []c38Ev {
 		for _, c := range cookies {
 			ev = append(ev, c38Ev{K: "req", R: r.Pattern, C: c.C, T: c.T})
 		}
+	}
+	for _, c := range cookies {
+		ev = append(ev, c38Ev{K: "poll", C: c.C, T: c.T})
 	}
 	for _, c := range cookies {
 		if c.C == "empty" || c.C == "trunc0" {
@@ -622,6 +733,7 @@ type c38Result struct {
 	summary string // model state summary after the history (part of the outcome signature)
 	canon   string
 	ntoks   int
+	live    []int // indices of the sessions that are live by the model after the history
 	viol    []c38Viol
 	obs     []string
 	broken  string // replay itself failed (harness problem)
@@ -641,13 +753,21 @@ func c38Replay(t *testing.T, cfg c38Cfg, hist []c38Ev) (res c38Result) {
 			res.obs = append(res.obs, s.obs)
 		}
 		res.viol = s.viol
+		// the state reached by the history itself (the closing sweep presents every token
+		// and must not leak into the key)
+		res.canon = s.canon()
+		res.ntoks = len(s.toks)
+		res.summary = s.summary()
+		now := time.Now()
+		for i := range s.toks {
+			if st := s.tokStatus(i, now); st == "live" || st == "edge" {
+				res.live = append(res.live, i)
+			}
+		}
 		if len(res.viol) == 0 {
 			s.sweep()
 			res.viol = s.viol
 		}
-		res.canon = s.canon()
-		res.ntoks = len(s.toks)
-		res.summary = s.summary()
 	})
 	return res
 }
@@ -655,6 +775,7 @@ func c38Replay(t *testing.T, cfg c38Cfg, hist []c38Ev) (res c38Result) {
 type c38Node struct {
 	hist  []c38Ev
 	ntoks int
+	live  []int
 }
 
 func TestVerifC38(t *testing.T) {
@@ -662,11 +783,12 @@ func TestVerifC38(t *testing.T) {
 	defer rep.Finish()
 
 	cfg := c38ReadCfg(t)
-	rep.Rule = "states = canonical model states (issued tokens: live with remaining lifetime / expired / logged out / issued by a failed login; accepted login attempts per address within the window, as ages) reached by breadth-first search over event histories; every transition is one replay of the whole history on a fresh NewMux in its own synctest bubble; the oracle runs on the last event. signature = observation of the transition (event class, model status of the cookie, route, status code) | model state summary after it (tokens live/expired/logged out, attempts in window per address); non-trivial = the request/logout carried a token that was issued earlier (live, expired, logged out), or a login was answered 429"
+	rep.Rule = "states = canonical search keys (issued tokens: live with exact remaining ABSOLUTE lifetime (login instant + ttl, never moved by use) and exact time since the token was last presented while live / expired / logged out / issued by a failed login; accepted login attempts per address within the window, as ages) reached by breadth-first search over event histories {login, burst, logout, req(route,cookie), poll(/ui/api/auth/session,cookie), useall(live token: every protected route + session poll at one instant), adv}; every transition is one replay of the whole history on a fresh NewMux in its own synctest bubble; the oracle runs on the last event. signature = observation of the transition (event class, model status of the cookie, route, status code) | model state summary after it (tokens live/expired/logged out, attempts in window per address); non-trivial = the request/logout carried a token that was issued earlier (live, expired, logged out), or a login was answered 429"
 	rep.Assumptions = []string{
-		"states with equal model keys are merged: the implementation's state is assumed to be a function of the model state (request events lead back to the same key and are not expanded further); every replay, whatever its last event, is closed by a sweep of all protected routes x {no cookie, unknown token, every issued token} under the same oracle, so an effect of any event on the immediately following requests is observed",
+		"states with equal search keys are merged: the implementation's state is assumed to be a function of the key = model state + time since each live session was last presented (requests/polls with a cookie that is not a live session lead back to the same key and are not expanded further; presenting a live session leads to a new key, and of the events reaching it the history through useall - all routes and the session poll - is the one extended, so time advances and requests are explored AFTER a use); every replay, whatever its last event, is closed by a sweep of all protected routes x {no cookie, unknown token, every issued token} under the same oracle, so an effect of any event on the immediately following requests is observed",
 		"a request is 'answered' when the status is 2xx (streaming routes are called with an already cancelled context: 200 with no events), 'rejected' otherwise",
 		"at the exact expiry instant either answer is accepted; sliding window = half-open interval of the configured length",
+		"the /ui/api/auth/session poll is not a protected endpoint: its answer is observed, not judged; it only counts as a presentation of the token",
 		"protected = every registered pattern under /ui/api/ except /ui/api/auth/*; LFS handlers enabled with an in-process fake S3 transport",
 	}
 	var pats []string
@@ -753,7 +875,7 @@ func TestVerifC38(t *testing.T) {
 						continue
 					}
 					n := frontier[i]
-					evs := c38Enabled(cfg, n.ntoks, cfg.routes)
+					evs := c38Enabled(cfg, n.ntoks, n.live, cfg.routes)
 					rs := make([]c38Result, len(evs))
 					for k, e := range evs {
 						h := make([]c38Ev, len(n.hist)+1)
@@ -805,7 +927,7 @@ func TestVerifC38(t *testing.T) {
 				if !seen[r.canon] {
 					seen[r.canon] = true
 					states++
-					next = append(next, c38Node{hist: h, ntoks: r.ntoks})
+					next = append(next, c38Node{hist: h, ntoks: r.ntoks, live: r.live})
 				}
 			}
 		}
@@ -821,6 +943,20 @@ func TestVerifC38(t *testing.T) {
 	rep.Count("states", states)
 	rep.Count("transitions", transitions)
 	rep.Count("unexpanded_frontier_states", int64(len(frontier)))
+	// an expired token that is answered even when it was never presented in between is an expiry
+	// that is not enforced at all; the same token being answered after a use is then the same defect.
+	for k := range best {
+		const p = "expired-token-kept-alive-by-use-answered:"
+		if !strings.HasPrefix(k, p) {
+			continue
+		}
+		plain := "expired-token-answered:" + k[len(p):]
+		if _, ok := best[plain]; ok {
+			vcount[plain] += vcount[k]
+			delete(best, k)
+			delete(vcount, k)
+		}
+	}
 	// a mechanism that shows on every protected route is one defect of the session check, not one
 	// per route: collapse "<mechanism>:<route>" keys to "<mechanism>" when all routes are hit.
 	byMech := map[string][]string{}
@@ -833,6 +969,7 @@ func TestVerifC38(t *testing.T) {
 		if len(ks) < len(cfg.routes) || len(cfg.routes) < 2 {
 			continue
 		}
+		sort.Strings(ks)
 		var first violRec
 		var total int64
 		for i, k := range ks {
@@ -860,6 +997,7 @@ func TestVerifC38(t *testing.T) {
 		if !a || !b {
 			continue
 		}
+		sort.Strings(ks)
 		var first violRec
 		var total int64
 		for i, k := range ks {
